@@ -4,6 +4,9 @@
 // what the library's own reader returns for them.
 //
 //   exp_driver run <histories.ndjson> <shard> <nshards> <out.ndjson>
+//   exp_driver run2 <histories.ndjson> <shard> <nshards> <outA.ndjson> <outB.ndjson>
+//       histories 2k and 2k+1 are executed by two instances operated alternately on one thread (their calls interleaved
+//       pseudo-randomly); each instance writes its own trace, validated like any other execution
 //
 // History: {"comp":"none|gz|xz","out":"file|fd","preamble":{..},"ops":[..]}
 // Trace events:
@@ -31,6 +34,34 @@ int main(int argc, char** argv)
             r.history_no = job - 1;
             r.run(h);
         }
+    } else if (argc == 7 && std::string(argv[1]) == "run2") {
+        unsigned shard = atoi(argv[3]), nshards = atoi(argv[4]);
+        vh::trace().open(argv[5]);
+        vh::Trace trb;
+        trb.open(argv[6]);
+        vh::install_crash_handlers();
+        std::ifstream in(argv[2]);
+        std::string l1, l2;
+        uint64_t pair = 0;
+        while (std::getline(in, l1) && std::getline(in, l2)) {
+            if (l1.empty() || l2.empty()) continue;
+            if ((pair++ % nshards) != shard) continue;
+            json ha = json::parse(l1), hb = json::parse(l2);
+            Run a, b;
+            a.tag = "_a"; b.tag = "_b"; b.tr = &trb;
+            a.history_no = 2 * (pair - 1); b.history_no = 2 * (pair - 1) + 1;
+            uint64_t x = pair * 2654435761u + 12345;
+            auto coin = [&]() { x = x * 6364136223846793005ULL + 1442695040888963407ULL; return (x >> 33) & 1; };
+            if (coin()) { a.begin(ha); b.begin(hb); } else { b.begin(hb); a.begin(ha); }
+            size_t ia = 0, ib = 0, na = ha["ops"].size(), nb = hb["ops"].size();
+            while (ia < na || ib < nb) {
+                bool pa = ib >= nb || (ia < na && coin());
+                if (pa) a.step(ha["ops"][ia++]); else b.step(hb["ops"][ib++]);
+            }
+            if (coin()) { a.finish(ha); b.finish(hb); } else { b.finish(hb); a.finish(ha); }
+        }
+        trb.emit({{"e", "END"}});
+        trb.close();
     } else {
         fprintf(stderr, "usage: exp_driver run <histories> <shard> <nshards> <out>\n");
         return 2;
